@@ -479,9 +479,8 @@ def render(schedule):
 def bounds_for(tier, scn):
     n = len(SCENARIOS[scn])
     if tier == 'thorough':
-        import os
-        x = int(os.environ.get('C18_EXTRA', '0'))
-        return list(range(0, 4 + x)) if n == 2 else list(range(0, 3 + x))
+        # one level beyond the planned 3 / 2: measured 195 k executions, < 3 min on a loaded machine
+        return [0, 1, 2, 3, 4] if n == 2 else [0, 1, 2, 3]
     return [0, 1, 2] if n == 2 else [0, 1]
 
 
@@ -503,6 +502,8 @@ def explore_unit(part, tier, scn, entry, move, bounds, roots=None):
         if any(r[2].startswith('v') for r in res):
             part.nontrivial('%s/%s/%s/%r' % (scn, entry, move, res))
         last_schedule[0] = ex.schedule()
+        # "returns nothing" is always allowed for load: whether a usable entry is hit is UNSPECIFIED
+        part.add(unspecified=sum(1 for r in res if r[1] == 'load' and r[2] == 'None'))
         if len(part.samples) < 2 and ex.preemptions == explorer.bound:
             part.sample({'scenario': scn, 'entry': entry, 'move': move, 'bound': explorer.bound,
                          'schedule': render(ex.schedule()), 'results': [list(r) for r in res]})
@@ -516,6 +517,14 @@ def explore_unit(part, tier, scn, entry, move, bounds, roots=None):
         e = Explorer(factory, b, crash, on_complete, use_cache=True)
         e.states = states
         e.run()
+        if b == 1 and (tier == 'thorough' or entry == 'stale'):
+            # harness self-check: the state cache must not change what is reachable
+            e2 = Explorer(factory, b, crash, lambda ex, explorer: (finish(ex), explorer.end_states.add(hash(end_state(ex)))),
+                          use_cache=False)
+            e2.run()
+            if e2.end_states != e.end_states:
+                raise HarnessBroken('state cache changed the reachable end states of %s/%s/%s' % (scn, entry, move))
+            part.add(evaluations=e2.executions, cache_crosschecks=1)
         tag = 'bound%d.' % b
         part.add(**{tag + 'executions': e.executions, tag + 'pruned': e.pruned, tag + 'end_states': len(e.end_states),
                     tag + 'sched_points': e.sched_points, tag + 'steps': e.steps_new})
@@ -545,32 +554,38 @@ def explore_unit(part, tier, scn, entry, move, bounds, roots=None):
                                    'results': [list(r) for r in res]})
 
 
-_PINNED = [False]
-
-
-def _pin():
-    """Keep all threads of this worker process on one CPU: a baton hand-off between threads
-    on different cores costs an inter-processor wake-up (measured: 5x total CPU time)."""
-    if _PINNED[0]:
-        return
-    _PINNED[0] = True
-    try:
-        import multiprocessing
-        import os
-        ident = multiprocessing.current_process()._identity
-        cpus = sorted(os.sched_getaffinity(0))
-        if ident and len(cpus) > 1:
-            os.sched_setaffinity(0, {cpus[(ident[0] - 1) % len(cpus)]})
-    except (AttributeError, OSError, ValueError):
-        pass
-
-
 def _work(unit):
-    _pin()
     part = Part()
     tier, scn, entry, move, bounds = unit
     explore_unit(part, tier, scn, entry, move, bounds)
     return part.result()
+
+
+def _work_safe(unit):
+    import traceback
+    try:
+        return _work(unit)
+    except BaseException:
+        return {'error': traceback.format_exc()}
+
+
+def pmap_fresh(chunks):
+    """vt.core.pmap semantics (ordered results, worker error = HarnessBroken), but on freshly
+    started interpreters.  Measured here: the same units cost 5-6x more CPU in fork()ed
+    children of the loaded parent than in fresh processes (thread hand-offs over
+    copy-on-write pages), so forked workers made the 16-way run slower than a serial one."""
+    import multiprocessing
+    from vt.core import NCPU
+    chunks = list(chunks)
+    if NCPU <= 1 or len(chunks) <= 1:
+        for r in pmap(_work, chunks, jobs=1):
+            yield r
+        return
+    with multiprocessing.get_context('spawn').Pool(min(NCPU, len(chunks))) as pool:
+        for r in pool.imap(_work_safe, chunks):
+            if 'error' in r:
+                raise HarnessBroken(r['error'])
+            yield r
 
 
 def units(tier):
@@ -590,11 +605,12 @@ def _weight(u):
 
 def run(ctx):
     us = units(ctx.tier)
+    ctx.max_reports = 60
     # heaviest first (load balance); the seed only rotates dispatch among equal weights
     us = sorted(rotate(us, ctx.seed), key=_weight)
     per_key = {}
     parts = []
-    for r in pmap(_work, us):
+    for r in pmap_fresh(us):
         viols = r.pop('violations')
         r['violations'] = []
         ctx.merge(r)
